@@ -70,7 +70,7 @@ class Report:
         captured, floors = cache[key]
         sites = tuple(only_sites) if only_sites else None
         for status, rule, site, construct, detail in captured:
-            if rule in mapping and (not sites or any(x in site for x in sites)):
+            if rule in mapping and (not sites or any((site == x[1:]) if x.startswith("=") else (x in site) for x in sites)):
                 self.instances.append({"rule": mapping[rule], "site": site, "construct": construct, "status": status, "detail": detail})
         if not sites:
             for rule, n in floors.items():
